@@ -1,0 +1,56 @@
+//go:build verif
+
+// Contracts for package shovel, checked by /verif. Comments only.
+//
+// Ghost database of the task's own (source, integration) pair (see
+// /verif/DESIGN.md): cur = recorded positions, hash = hash recorded with a
+// position, rows = number of copies of a block's rows. V_* is the view behind
+// the wpg.Conn parameter of a function verified on its own; in Converge D_* is
+// the committed state and W_* the working copy of the open transaction.
+package shovel
+
+// C06: resume from the recorded position; without one begin at start-1, or at
+// the source's head-1 when no start is configured.
+//@ func (*Task).latest props=C06,C01,C04 conn=pg pair=t.srcName,t.destConfig.Name
+//@   ensures [resume] result2 == nil && (exists m uint64 :: old(V_cur[m])) ==> V_cur[result0] && (forall m uint64 :: V_cur[m] ==> m <= result0) && hashof(result1) == V_hash[result0]
+//@   ensures [start] result2 == nil && !(exists m uint64 :: old(V_cur[m])) && t.start > 0 ==> result0 == t.start - 1
+//@   ensures [frame] V_cur == old(V_cur) && V_rows == old(V_rows) && V_hash == old(V_hash)
+
+// C03/C04: a reorg removes the pair's positions and rows from block n on, and nothing else.
+//@ func (*Task).Delete props=C03,C04,C02 conn=pg pair=t.srcName,t.destConfig.Name
+//@   requires len(t.dests) > 0
+//@   ensures [cursor] result == nil ==> (forall m uint64 :: V_cur[m] == (old(V_cur[m]) && m < n))
+//@   ensures [rows] result == nil ==> (forall m uint64 :: V_rows[m] == (m >= n ? 0 : old(V_rows[m])))
+//@   ensures [hash] V_hash == old(V_hash)
+
+// C01/C02: the position is recorded for the pair, with the given number and hash.
+//@ func (*Task).update props=C01,C02,C04 conn=pg pair=t.srcName,t.destConfig.Name
+//@   ensures [cursor] result == nil ==> (forall m uint64 :: V_cur[m] == (old(V_cur[m]) || m == num))
+//@   ensures [hash] result == nil ==> V_hash[num] == hashof(hash) && (forall m uint64 :: m != num ==> V_hash[m] == old(V_hash[m]))
+//@   ensures [rows] V_rows == old(V_rows)
+//@   ensures [err] result != nil ==> V_cur == old(V_cur) && V_hash == old(V_hash)
+
+// C05: the position up to which every referenced integration has recorded progress.
+//@ func (*Task).latestDependency props=C05 conn=pg pair=t.srcName,t.destConfig.Name
+//@   ensures [none] result2 == nil && !depSome ==> result0 == 0
+//@   ensures [min] result2 == nil && depSome ==> result0 == depMinStarted
+//@   ensures [frame] V_cur == old(V_cur) && V_rows == old(V_rows) && V_hash == old(V_hash)
+
+// C01/C03: a successful load returns blocks start..start+k-1 (1 <= k <= limit) in
+// order, hash-linked, and its first block extends the recorded position.
+//@ spec opaque linkedAt(bs []eth.Block, j int) bool = len(bs[j].Header.Parent) == 32 && len(bs[j-1].Header.Hash) == 32 ==> hashof(bs[j].Header.Parent) == hashof(bs[j-1].Header.Hash)
+//@ func (*Task).load props=C01,C03 ghost=none
+//@   requires t.batchSize >= 1 && t.batchSize < 0x100000 && t.concurrency >= 1 && t.concurrency < 0x100000
+//@   requires 1 <= limit && limit <= uint64(t.batchSize) && start < 0x7fffffffffffffff - limit
+//@   ensures [count] result1 == nil ==> 1 <= len(result0) && uint64(len(result0)) <= limit
+//@   ensures [numbers] result1 == nil ==> (forall j int :: 0 <= j && j < len(result0) ==> uint64(result0[j].Header.Number) == start + uint64(j))
+//@   ensures [parent] result1 == nil && len(result0[0].Header.Parent) == 32 ==> hashof(result0[0].Header.Parent) == hashof(localHash)
+//@   ensures [linked] result1 == nil ==> (forall j int :: 1 <= j && j < len(result0) ==> linkedAt(result0, j))
+//@   loop#0 invariant 0 <= i && i <= t.concurrency
+//@   loop#0 invariant egerr(eg) == nil ==> uint64(len(blocks)) == min(limit, uint64(i*part))
+//@   loop#0 invariant egerr(eg) == nil ==> (forall j int :: 0 <= j && j < len(blocks) ==> start <= uint64(blocks[j].Header.Number) && uint64(blocks[j].Header.Number) < start + uint64(len(blocks)))
+//@   loop#0 invariant egerr(eg) == nil ==> (forall j int, k int :: 0 <= j && j < k && k < len(blocks) ==> uint64(blocks[j].Header.Number) != uint64(blocks[k].Header.Number))
+//@   loop#1 invariant 1 <= i && i <= len(blocks)
+//@   loop#1 invariant forall k int :: 1 <= k && k < i ==> linkedAt(blocks, k)
+//@   after slices.SortFunc assume len(blocks) == old(len(blocks))
+//@   after slices.SortFunc assume (forall j int :: 0 <= j && j < len(blocks) ==> start <= uint64(old(blocks[j].Header.Number)) && uint64(old(blocks[j].Header.Number)) < start + uint64(len(blocks))) && (forall j int, k int :: 0 <= j && j < k && k < len(blocks) ==> uint64(old(blocks[j].Header.Number)) != uint64(old(blocks[k].Header.Number))) ==> (forall j int :: 0 <= j && j < len(blocks) ==> uint64(blocks[j].Header.Number) == start + uint64(j))
